@@ -134,4 +134,25 @@ def regexSearch (F : Fold) (sel : Nat × Nat) (pat : List Nat) (docs : List (Lis
     (engine : List (Nat × Nat)) : List (Nat × Nat) :=
   if (substrSearch F sel pat docs text).isEmpty then [] else engine
 
+/-! ### `query.RegexpQuery`: the literal-regexp → substring optimisation -/
+
+/-- what `RegexpQuery` builds for an optimised regexp that is a literal with runes `rs` and `FoldCase` flag `fold` -/
+inductive QAtom where
+  | substring (pat : List Nat)
+  | regexp
+  deriving DecidableEq, Repr
+
+/-- only a literal *without* the FoldCase flag becomes a `query.Substring`; `(?i)lit` stays a `query.Regexp`
+    (the fixed code; before the fix every literal became a Substring holding the upper-cased runes) -/
+def regexpQueryLit (fold : Bool) (rs : List Nat) : QAtom := if fold then .regexp else .substring rs
+
+/-- `regexpToMatchTreeRecursive` on a literal: `CaseSensitive: !ignoreCase && caseSensitive` -/
+def litCaseSensitive (fold qcase : Bool) : Bool := !fold && qcase
+
+/-- the case sensitivity with which the literal is finally searched, `qcase` being the query's case setting -/
+def atomCaseSensitive (fold qcase : Bool) : Bool :=
+  match regexpQueryLit fold [] with
+  | .substring _ => qcase
+  | .regexp => litCaseSensitive fold qcase
+
 end ZoektModel.C08
